@@ -8,6 +8,8 @@ CHECK = {
     "rule": "",
     "harnesses": [H("e1", variant="free", build_only=True, libs=["vrt", "vsync", "vtime", "vctx"],
                     inpkg={"internal/agent": ["e1/zz_verif_e1_agent.go"], "internal/dag/scheduler": ["e1/zz_verif_e1_sched.go"]}),
+                  H("e1", variant="free", race=True, build_only=True, tiers=["thorough"], libs=["vrt", "vsync", "vtime", "vctx"],
+                    inpkg={"internal/agent": ["e1/zz_verif_e1_agent.go"], "internal/dag/scheduler": ["e1/zz_verif_e1_sched.go"]}),
                   H("e1", sub="C03", **_E1),
                   H("agentseq", sub="C03dry", shards={"quick": "ncpu", "thorough": "ncpu"})],
     "assumptions": [],
